@@ -5,7 +5,8 @@ M: in every Layer-A spec the next state and the outputs are a function of (state
 G: datagram shapes derived from recorded valid traffic (every truncation point; label lengths, compression
    pointers and question tails reaching exactly to / one past / far past the end; pointers aligned to label
    boundaries of the victim's previous datagram), received in TLC-generated session states right after a victim's
-   long valid data query.  Client side: truncated / length-edited answers of every record type (see c06 harness).
+   long valid data query.  Client side: truncated / length-edited answers of every record type (see c06 harness), and
+   the reply decoder called directly (drv_down residue mode) on record-boundary cuts under eight buffer paintings.
 T: self-composition: each execution is run with different receive-buffer residues and zipped; spec/MonResidue.tla
    accepts a step iff all its outputs agree.
 """
@@ -15,7 +16,7 @@ import script
 import vcheck
 from checks import common, sessions
 
-MODES = {"quick": (1, 4), "thorough": (1, 4, 2)}
+MODES = {"quick": (1, 4, "5 000a"), "thorough": (1, 4, 2, "5 000a", "5 0100", "5 c00c")}
 
 
 def run_family(arg):
@@ -58,6 +59,19 @@ def main(tier):
                  sigfn=lambda r, rej: "server:len%d" % rej["event"].get("len", 0), key="c12")
     from checks import c06
     c06.residue_family(chk, tier, seed)
+    # the client's reply decoder itself (read_dns_withq via the include-driver): cut-down variants of real answers of
+    # every type x codec x size - every record boundary with RDLENGTH patched to the 0 / 1 / 2 bytes left, and cuts at
+    # other places - decoded under eight paintings of the receive buffer; result, bytes and type must all agree
+    from checks import funcs
+    ns = 8 if tier == "quick" else 16
+    prod = funcs.produce("drv_down", [[seed + k, sh, ns, 1, "residue"] for sh in range(ns)
+                                      for k in range(1 if tier == "quick" else 6)])
+    funcs.san_failures(chk, prod, "residue-decoder")
+    dfiles = [p for p, n, rc, err in prod if n > 0]
+    dout = funcs.judge_files(chk, "TraceMonResidue", "TraceMonResidue.cfg", dfiles, "residue",
+                             sigfn=lambda ev: "decoder:qt%s:%s" % (ev.get("qt"), ev.get("cut")))
+    chk.cov["decoder_pairs"] = dout["events"]
+    chk.cov["evaluations"] = chk.cov.get("evaluations", 0) + dout["events"]
     chk.cov["evaluations"] = chk.cov.get("evaluations", 0) + sum(r["stats"]["pairs"] for r in results)
     chk.cov["server_datagrams"] = sum(r["stats"]["pairs"] for r in results)
     chk.cov["server_datagrams_answered"] = sum(r["stats"]["replied"] for r in results)
